@@ -345,6 +345,13 @@ def c13(res):
                       dict(kind="sometimes", name="w1", sat=[], mode="mod", m=rng.choice([1501, 1777, 2999]), r=rng.randint(0, 1400)),
                       dict(kind="sometimes", name="w2", sat=[], mode="mod", m=n, r=(n * 3 // 4) % n)]
 
+    # more initial states than fit into one batch of anything: a grid whose first 1300 nodes (its top rows) are all initial
+    many = dict(id="F4-manyinit", family="grid", n=80 * 60, init=list(range(1, 1301)), succ=[], inb=[], params=[80, 60], poison=0, rep=[],
+                props=[dict(kind="always", name="keep", sat=[], mode="all", m=0, r=0),
+                       dict(kind="sometimes", name="w1", sat=[], mode="mod", m=1499, r=rng.randint(1300, 1450)),
+                       dict(kind="sometimes", name="w2", sat=[], mode="mod", m=4800, r=4700)])
+    big.append(many)
+
     def bcfgs(i, g):
         return [gg.base_cfg("bfs", 1, light=True, watchdog_ms=60000)]
     fam_market.checker_runs(res, "C13", big, bcfgs, ["bfs_depth", "shortest", "complete"], wd, "c13big")
